@@ -97,9 +97,8 @@ def run(module, cfg, files=None, workers=16, timeout=900, env=None, args=(), kee
         os.makedirs(os.path.join(d, "sim"), exist_ok=True)
         with open(os.path.join(d, module + ".cfg"), "w") as fh:
             fh.write(cfg)
-        cmd = ["java", "-XX:+UseParallelGC"]
-        if heap:
-            cmd.append("-Xmx" + heap)
+        cmd = ["java", "-XX:+UseParallelGC", "-XX:ParallelGCThreads=4"]
+        cmd.append("-Xmx" + (heap or "6g"))
         for o in java_opts or ():
             cmd.append(o)
         cmd += ["-cp", JAR, "tlc2.TLC", "-workers", str(workers), "-metadir", os.path.join(d, "meta"),
@@ -161,10 +160,14 @@ def read_dump(path):
     """Parse a `-dump file` output: yields dict per state."""
     with open(path) as fh:
         text = fh.read()
-    for blk in re.split(r"(?m)^State \d+:\s*$", text):
-        blk = blk.strip()
-        if blk:
+    blocks = [b.strip() for b in re.split(r"(?m)^State \d+:\s*$", text) if b.strip()]
+    for k, blk in enumerate(blocks):
+        try:
             yield tlaval.parse_state(blk)
+        except (tlaval.ParseError, IndexError):
+            if k == len(blocks) - 1:
+                return          # truncated last block: TLC did not finish - the caller sees that from the result
+            raise
 
 
 def dump_states(module, cfg, files=None, workers=16, timeout=900, env=None):
